@@ -156,6 +156,30 @@ theorem mixture_logsumexp (k : Nat) (w m : Fin k → ℝ) (hw : ∀ j, 0 < w j) 
       rw [sub_eq_add_neg, Real.exp_add, Real.exp_log (hw _)]
   rw [this, List.sum_ofFn]
 
+/-- the shifted (log-sum-exp) form the code evaluates is the same number for every shift -/
+theorem mixture_shift_invariant (k : Nat) [NeZero k] (w m : Fin k → ℝ) (c : ℝ) :
+    Dist.mixtureMisfitShift Real.exp Real.log 0 c (List.ofFn w) (List.ofFn m)
+      = Dist.mixtureMisfit Real.exp Real.log 0 (List.ofFn w) (List.ofFn m) := by
+  unfold Dist.mixtureMisfitShift Dist.mixtureMisfit
+  rw [sumList_eq_sum, sumList_eq_sum]
+  have e1 : List.zipWith (fun wi mi => Real.exp (Real.log wi - mi - c)) (List.ofFn w) (List.ofFn m)
+      = List.ofFn (fun j => Real.exp (Real.log (w j) - m j) * Real.exp (-c)) := by
+    apply List.ext_getElem
+    · simp
+    · intro n h1 h2
+      simp only [List.getElem_zipWith, List.getElem_ofFn]
+      rw [sub_eq_add_neg (Real.log _ - _) c, Real.exp_add]
+  have e2 : List.zipWith (fun wi mi => Real.exp (Real.log wi - mi)) (List.ofFn w) (List.ofFn m)
+      = List.ofFn (fun j => Real.exp (Real.log (w j) - m j)) := by
+    apply List.ext_getElem
+    · simp
+    · intro n h1 h2; simp
+  rw [e1, e2, List.sum_ofFn, List.sum_ofFn, ← Finset.sum_mul]
+  have hpos : 0 < ∑ j, Real.exp (Real.log (w j) - m j) :=
+    Finset.sum_pos (fun j _ => Real.exp_pos _) ⟨0, Finset.mem_univ _⟩
+  rw [Real.log_mul hpos.ne' (Real.exp_pos _).ne', Real.log_exp]
+  ring
+
 /-- … with the matching gradient `Σ pⱼ gⱼ / Σ pⱼ` -/
 theorem mixture_gradient (k : Nat) [NeZero k] (w : Fin k → ℝ) (ms : Fin k → (ι → ℝ) → ℝ) (gs : Fin k → ι → ℝ) (x : ι → ℝ)
     (h : ∀ j, IsGradAt (ms j) (gs j) x) :
@@ -173,6 +197,15 @@ theorem mixtureGrad1_eq (k : Nat) (p g : Fin k → ℝ) :
     · simp
     · intro n h1 h2; simp
   rw [this, List.sum_ofFn, List.sum_ofFn]
+
+/-- … and the responsibilities enter the gradient only through their ratios -/
+theorem mixture_grad_shift_invariant (k : Nat) (p g : Fin k → ℝ) (c : ℝ) :
+    Dist.mixtureGrad1 0 (List.ofFn (fun j => p j * Real.exp (-c))) (List.ofFn g) = Dist.mixtureGrad1 0 (List.ofFn p) (List.ofFn g) := by
+  rw [mixtureGrad1_eq, mixtureGrad1_eq]
+  have h1 : ∑ j, p j * Real.exp (-c) * g j = (∑ j, p j * g j) * Real.exp (-c) := by
+    rw [Finset.sum_mul]; apply Finset.sum_congr rfl; intro j _; ring
+  have h2 : ∑ j, p j * Real.exp (-c) = (∑ j, p j) * Real.exp (-c) := by rw [Finset.sum_mul]
+  rw [h1, h2, mul_div_mul_right _ _ (Real.exp_pos _).ne']
 
 /-! ### TransformToLogSpace: the exact change of variables `m = base^x` -/
 
